@@ -153,8 +153,42 @@ class NP:
             step = (stop - start) / n
         return Arr([Axis(n)], lambda k: start + k * step, "float")
 
-    def arange(self, *a):
-        raise Undecided("np.arange (modelled in the profile contracts only)")
+    def arange(self, start, stop=None, step=1):
+        """np.arange(a, b, s): ceil((b-a)/s) elements a + k*s (A2).  The length is an uninterpreted
+        function of the arguments (congruence across calls); its defining fact is kept in run.arange_defs."""
+        run = engine()
+        if stop is None:
+            start, stop = Num(0), start
+        a, b, s_ = num(start), num(stop), num(step)
+        R = z3.RealSort()
+        N = Num(z3.Function("arange_len", R, R, R, z3.IntSort())(a.zr(), b.zr(), s_.zr()))
+        run.assume(N >= 0)
+        run.__dict__.setdefault("arange_defs", []).append((N, a, b, s_))
+        return Arr([Axis(N)], lambda k: a + k * s_, "float")
+
+    def _opaque_pred(self, name, *args):
+        run = engine()
+        return sym.fresh_bool(name)
+
+    def allclose(self, a, b, rtol=1e-05, atol=1e-08, equal_nan=False):
+        """Tolerance comparison: an uninterpreted predicate (both outcomes are explored)."""
+        return self._opaque_pred("allclose")
+
+    def isclose(self, a, b, rtol=1e-05, atol=1e-08, equal_nan=False):
+        if isinstance(a, Arr) or isinstance(b, Arr):
+            raise Undecided("np.isclose over arrays")
+        return self._opaque_pred("isclose")
+
+    def array_equal(self, a, b):
+        return self._opaque_pred("array_equal")
+
+    def unique(self, a, **kw):
+        """Sorted distinct values: an opaque 1-D array (fresh length and elements)."""
+        run = engine()
+        nm = run.fresh("unique")
+        n = sym.fresh_int("len_" + nm)
+        run.assume(n >= 0)
+        return arrays.fresh_array(nm, [n], a.dtype if isinstance(a, Arr) else "float")
 
     def meshgrid(self, *xs, indexing="xy"):
         xs = [self.asarray(x) for x in xs]
